@@ -26,3 +26,24 @@ check(
     "Trusted: FEniCS/basix reference-cell tables (appendix B of DESIGN.md) and the vertex formulas in /verif/mc/sem/cells.py (self-tested with Cayley-Menger/Heron identities). Ridge quantities and non-affine cells are not covered. Quantities UFL refuses to lower are counted, not alarms.",
     "DESIGN.md 3 C07",
 )
+check(
+    "C08",
+    "exhaustive catalogue enumeration (pullback kinds x reference shapes x mixed/symmetric nestings x cell types x concrete cells); real apply_function_pullbacks vs direct push-forward",
+    "Every pullback kind (identity, co-/contravariant Piola incl. row-wise on tensor-valued reference functions, L2 Piola, double co-/contravariant, covariant-contravariant), all ordered pairs and a cube of triples of leaf elements in mixed elements, symmetric 2x2/3x3 compositions of scalar/vector/Piola sub-elements, and two-level nestings, on interval/triangle/tetrahedron incl. immersed manifolds: apply_function_pullbacks is executed and its result evaluated on concrete cells (det J of both signs, both orientations, real and complex reference data) equals the push-forward written directly in the model; UFL shape == function space value shape == model shape.",
+    "Trusted: the push-forward formulas in /verif/mc/sem/fields.py; on manifolds det J carries the CellOrientation sign (UFL convention). MeshSequence/mixed-cell elements, PhysicalPullback/CustomPullback are not covered.",
+    "DESIGN.md 3 C08",
+)
+check(
+    "C25",
+    "complete enumeration of all predefined + directional Sobolev spaces: all pairs x 6 operators, all triples, all element-membership questions, vs independent inclusion relation",
+    "Complete enumeration of the finite universe {12 predefined Sobolev spaces} u {DirectionalSobolevSpace(o): o in {0,1,2,inf}^d, d<=2} (thorough: {0,1,2,3,inf}^d and {0,1,2}^3): every ordered pair under <,>,<=,>=,==,!=, every triple, every (synthetic element, space) membership, executed on the real operators and decided against the order laws of the statement and an independently computed inclusion relation (parents read from the source with ast, transitive closure, componentwise order for directional spaces).",
+    "Exhaustive within the stated order alphabet. Pairs the code declares unknown (NotImplementedError) are excluded from the reference comparison only; triples mixing two directional dimensions carry no verdict. Trusted: the reference inclusion relation in the driver.",
+    "DESIGN.md 3 C25",
+)
+check(
+    "C26",
+    "complete enumeration of all named cells, tensor product cells (tdim<=3/4) and recursively all sub-entities vs a face-lattice model; order laws on all pairs/triples",
+    "All 10 named cells, all TensorProductCells of named factors (<=3 factors, tdim<=3; thorough <=4/<=4 plus nested products) and recursively every sub-entity are compared with an independent face-lattice model (point/cone/product constructions): counts, entity types, Euler relation, incidence double counting, diamond property, all accessors, simplex flags; < is checked to be a strict total order on all pairs and triples of the resulting universe (174 / 761 objects).",
+    "Exhaustive for the named-cell table and the stated product bounds. TensorProductCell entries refused with NotImplementedError are recorded as not provided (no verdict). Entity order inside a tuple is recorded, not required. Trusted: the combinatorial model in the driver (self-validated against closed simplex/hypercube formulas).",
+    "DESIGN.md 3 C26",
+)
